@@ -5,8 +5,6 @@ package scheduler
 import (
 	"github.com/apache/yunikorn-core/pkg/common/configs"
 	"github.com/apache/yunikorn-core/pkg/common/security"
-	"github.com/apache/yunikorn-core/pkg/scheduler/objects"
-	"github.com/apache/yunikorn-scheduler-interface/lib/go/si"
 )
 
 // R5: after a reload the child template in force on a parent queue is the one of the latest configuration, whatever
@@ -38,12 +36,9 @@ func VerifC16_ReloadLoadsChildTemplate() {
 	c1 := mk("c1", false)
 	c2 := mk("c2", true)
 	probe := func(pc *PartitionContext) (int64, uint64) {
-		app := objects.NewApplication(&si.AddApplicationRequest{ApplicationID: "app-1", QueueName: "root.par.dyn", PartitionName: "default"},
-			security.UserGroup{User: "u1", Groups: []string{"g1"}}, &vRecorder{}, "rm-1")
-		aerr := pc.AddApplication(app)
-		vAssert(aerr == nil, "world: application accepted into the rule-created queue")
-		q := pc.GetQueue("root.par.dyn")
-		vAssert(q != nil, "world: dynamic queue exists")
+		// the call the partition makes for a queue name a placement rule produced (the rule itself is C17's subject)
+		q, qerr := pc.createQueue("root.par.dyn", security.UserGroup{User: "u1", Groups: []string{"g1"}})
+		vAssert(qerr == nil && q != nil, "world: rule-created queue exists")
 		mem := int64(-1)
 		if mr := q.GetMaxResource(); mr != nil {
 			if v, ok := mr.Resources["memory"]; ok {
